@@ -28,6 +28,10 @@ checks = {
    text="Seeded deterministic simulation. (two-sided) two consumer tasks follow seeded call scripts (HasNext repeated 1-3 times before each Next, early stop, Next on exhausted) on the two outputs of Duplicate/Span/Partition (optionally under further combinators) over an instrumented finite or unbounded source; they are interleaved call by call, and mid-call when the source stalls while the library's mutex is held (the other side then really blocks on it). Oracles: each side delivers exactly its slice-reference sequence, every HasNext agrees with the reference and changes nothing, Next on exhausted panics, the source is never used concurrently nor over-pulled, drained sides pulled each element once. (one-sided) same scripts over seeded pipelines of iterator constructors and 22 combinators; (unordered) map/set iterators as multisets under three lawful hashers; (zero) every method of the zero-value Iterator. Sampling, not proof.",
    note="Trusted: sync.Mutex; the slice reference implementations in the harness. How far ahead a combinator may pull is C12's question and deliberately not checked; consumers always call HasNext before Next.",
    technique="deterministic simulation: seeded scheduler over consumer calls + stalled-source fault under the library lock, slice reference model, pull counters"),
+ "C02": dict(cat="fault_enumeration", design="DESIGN.md §4 C02",
+   text="Fault plans over instrumented callbacks. A generated table (about 900 entries: try/option/either/statet x Map2-9/LiftA2-9/FlatMap2-9/LiftM2-9/Flap1-9/Method1-9/FlatMethod1-9/Compose2-5/Zip/Zip3/Ap/ApFunc/Flatten/Map/FlatMap/Lift/LiftM/Replace/With/FlapMap/FlatFlapMap/Sequence*/Traverse* (8 variants)/FlatMapTraverse*/FoldM over 0-5 elements, and Chain1-9/Applicative1-9 builders of try and option with the argument variant of every position drawn from the seed) is executed under the no-fault plan, EVERY single-fault plan and seeded multi-fault plans: result must be the failure of the left-most faulted position with that position's own sentinel, callbacks before it ran exactly once in order and none after it. Recover*/Or*/OrElse* of Try/Option/Either/StateT are swept over receiver x handler behaviour (handlers run iff the receiver failed, successes unchanged, handler gets the receiver's own error). try.Of/Call/CallUnit and future.Apply/Apply2/Func0-3/Unit1 (the latter under the seeded task scheduler and every executor kind) are run with normal, error-returning and panicking bodies over six panic values: Failure must expose the panic value, a normal return is never turned into a failure, the future always completes. A fatal stack overflow is attributed to the case through the crash journal.",
+   note="Single-fault plans are complete for every case a run visits; which cases are visited and all multi-fault plans are sampled from the seed (a quick run visits every table entry many times). Only the future.Apply family has a schedule; the rest are single-task fault-plan runs (stated in the evidence run classes). panic(nil) is excluded.",
+   technique="fault injection through instrumented callbacks: complete single-fault enumeration + seeded multi-fault plans per combinator instance; seeded scheduler for future.Apply*"),
 }
 
 na = {
